@@ -35,7 +35,7 @@ SPEC = dict(
                       "default_timeout_submissions": 150, "default_timeout_raised": 15, "@class:default-timeout/*": 4, "set_expire_submissions": 250,
                       # the enumerated expiry-batch grid: anchored on the loop picking P, every order of {loop reaches Q, canceller calls Q's cancel function, re-submission}
                       "grid_cases": 678, "grid_anchored": 650, "@class:grid/P=*/Q=sleep/*": 18, "@class:grid/P=*/Q=provider/*": 3,
-                      "@class:grid/Q=sleep/act=*/order=L<C<R": 2, "@class:grid/Q=sleep/act=*/order=L<R<C": 2, "@class:grid/Q=sleep/act=*/order=C<L<R": 1, "@class:grid/Q=sleep/act=*/order=C<R*": 2,
+                      "@class:grid/Q=sleep/act=*/order=L<C<R": 2, "@class:grid/Q=sleep/act=*/order=L<R<C": 2, "@class:grid/Q=sleep/act=*/order=C<R*": 2,
                       "@class:grid/Q=provider/act=*/order=*": 6},
                eval_key="operations"),
     thorough=dict(runs=[R("c02_aio", "asan", 16, 1500, "mixed", 3000),
